@@ -3,6 +3,7 @@ package mon
 import (
 	"fmt"
 	"reflect"
+	"regexp"
 	"runtime"
 	"sort"
 	"strings"
@@ -313,14 +314,16 @@ func runC18(ctx *core.Ctx) {
 		out := pol.Sanitize(in)
 		cs.Eval()
 		cs.Count("e2e_sanitize_calls", 1)
-		// judge the output: find style attribute values and see whether the hostile fragment survived
+		// judge the output as a browser reads it: the escape-decoded value of every emitted
+		// declaration must be free of hostile content (an escaped spelling of a harmless value,
+		// e.g. "au\\to", is legitimately kept: handlers judge the decoded value, see C10)
 		for _, sv := range oracle.StyleAttrValues(out) {
 			cs.Count("e2e_style_attributes_emitted", 1)
 			for _, d := range oracle.ParseDeclarations(sv) {
-				if strings.Contains(d.DecodedValue, strings.ToLower(oracle.DecodeCSSEscapes(f.text))) || strings.Contains(strings.ToLower(d.RawValue), strings.ToLower(f.text)) {
-					cs.Violate(fmt.Sprintf("C18:%s:%s:end-to-end", handlerName(h), f.class),
-						fmt.Sprintf("default-handler policy for %q emitted style %q containing hostile fragment %q", prop, sv, f.text),
-						map[string]interface{}{"property": prop, "input": core.Show(in), "output": core.Show(out), "fragment": f.text})
+				if cls := hostileContent(d.DecodedValue); cls != "" {
+					cs.Violate(fmt.Sprintf("C18:%s:%s:end-to-end", handlerName(h), cls),
+						fmt.Sprintf("default-handler policy for %q emitted style %q, which a browser reads as value %q (%s)", prop, sv, d.DecodedValue, cls),
+						map[string]interface{}{"property": prop, "input": core.Show(in), "output": core.Show(out), "fragment": f.text, "browser_value": core.Show(d.DecodedValue)})
 				}
 			}
 		}
@@ -330,6 +333,38 @@ func runC18(ctx *core.Ctx) {
 	ctx.Floor("handler_calls", 1000000)
 	ctx.Floor("unknown_property_calls", 5000)
 	ctx.Floor("e2e_sanitize_calls", 1000)
+}
+
+var plainHTTPURL = regexp.MustCompile(`^url\\(("https?://[a-z0-9./_:-]+"|'https?://[a-z0-9./_:-]+'|https?://[a-z0-9./_:-]+)\\)`)
+
+// hostileContent classifies what the property forbids, judged on the value a browser reads.
+func hostileContent(v string) string {
+	switch {
+	case strings.ContainsAny(v, "<>"):
+		return "angle-bracket"
+	case strings.Contains(v, "\\"):
+		return "backslash"
+	case strings.Contains(v, "expression("):
+		return "expression"
+	case strings.Contains(v, "@import") || strings.Contains(v, "@charset"):
+		return "at-rule"
+	}
+	rest := v
+	for {
+		i := strings.Index(rest, "url(")
+		if i < 0 {
+			break
+		}
+		m := plainHTTPURL.FindString(rest[i:])
+		if m == "" {
+			return "url-not-plain-http"
+		}
+		rest = rest[:i] + " " + rest[i+len(m):]
+	}
+	if strings.Contains(rest, "javascript:") || strings.Contains(rest, "data:") {
+		return "script-or-data-reference"
+	}
+	return ""
 }
 
 // spread keeps at most n strings, preferring variety of shape.
